@@ -440,8 +440,8 @@ def duplicate_labels(snap):
 
 def modelled(op):
     """operations / option combinations that coq/C17/Model.v covers (the others are judged by the Python oracle only)"""
-    # select_subnet on a net without pipe table but with pipe_geodata raises (known finding): not in the Coq model
-    return not (op["op"] == "select_subnet" and op.get("pipe_table_removed"))
+    # every operation and option combination is covered by coq/C17/Model.v (a removed table counts as empty)
+    return True
 
 
 # --------------------------------------------------------------------------- everything else a net carries
